@@ -910,6 +910,57 @@ class Interp:
             return sign, ip.parent.n.t, k
         return sign, self.i_add(self.i_mul(ip.n.t, None, None, 10 ** k), fpart.n.t), k
 
+    # -- exact integer kernels ---------------------------------------------------------------------
+    def py_pow(self, a, b, m=None):
+        """a ** b / pow(a, b[, m]) for a small constant non-negative integer exponent (repeated multiplication)"""
+        if is_sym(b) or not isinstance(b, int) or isinstance(b, bool):
+            raise HarnessError('pyk: ** with a symbolic or non-integer exponent is not modelled')
+        if isinstance(a, SFloat) or isinstance(a, float):
+            raise HarnessError('pyk: float ** n goes through C pow(), which is not guaranteed to equal repeated '
+                               'multiplication; not modelled')
+        if b < 0:
+            raise HarnessError('pyk: negative exponent on a symbolic base is not modelled')
+        if b > 16:
+            raise HarnessError('pyk: exponent above 16 on a symbolic base is not modelled')
+        acc = 1
+        for _ in range(b):
+            acc = self.binop(ast.Mult, acc, a)
+        if m is not None:
+            acc = self.binop(ast.Mod, acc, m)
+        return acc
+
+    def py_isqrt(self, v):
+        """math.isqrt(n): fresh r >= 0 with r*r <= n < (r+1)*(r+1) (defining constraint goes into the path condition)"""
+        if isinstance(v, (SFloat, SRat, float)):
+            raise PyRaise('TypeError', "'float' object cannot be interpreted as an integer")
+        if not isinstance(v, (SInt, SBool)):
+            return math.isqrt(v)
+        n = self.it(v)
+        if self.branch(n < 0):
+            raise PyRaise('ValueError', 'isqrt() argument must be nonnegative')
+        self.fresh += 1
+        if self.int_mode == 'int':
+            r = z3.Int(f'isqrt!{self.fresh}')
+            self.pc.append(z3.And(r >= 0, r * r <= n, n < (r + 1) * (r + 1)))
+        else:
+            h = self.W // 2 - 1          # r < 2^h keeps r*r and (r+1)*(r+1) inside the signed W-bit range
+            r = z3.BitVec(f'isqrt!{self.fresh}', self.W)
+            lim = self.bv(1 << h)
+            self.add_side(n < self.bv(((1 << h) - 1) ** 2), 'isqrt argument range')
+            self.pc.append(z3.And(r >= 0, r < lim, r * r <= n, n < (r + 1) * (r + 1)))
+        return SInt(r)
+
+    def py_bit_length(self, v):
+        if self.int_mode == 'int':
+            raise HarnessError('pyk: int.bit_length() is not available in Int mode')
+        x = self.it(v)
+        self.add_side(x != self.bv(self.MIN), 'bit_length range')
+        ax = z3.If(x < 0, -x, x)
+        acc = self.bv(0)
+        for b in range(1, self.W):
+            acc = z3.If(ax >= self.bv(1 << (b - 1)), self.bv(b), acc)
+        return SInt(acc)
+
     # -- binary operators ---------------------------------------------------------------------------
     def binop(self, op, a, b):
         """op: ast operator class"""
@@ -930,6 +981,8 @@ class Interp:
                 ast.Pow: '**'}.get(op)
         if name is None:
             raise HarnessError(f'pyk: operator {op.__name__} not supported')
+        if name == '**':
+            return self.py_pow(a, b)
         if isr(a) or isr(b) or (self.float_mode == 'exact' and (isf(a) or isf(b) or name == '/')):
             if isinstance(a, float) or isinstance(b, float):
                 a = fractions.Fraction(a) if isinstance(a, float) else a
@@ -1167,6 +1220,16 @@ class Interp:
             return True, self.py_ceil(args[0], False)
         if f is math.sqrt:
             return True, self.py_sqrt(args[0])
+        if f is math.isqrt:
+            return True, self.py_isqrt(args[0])
+        if f is pow and len(args) in (2, 3) and any(is_sym(a) for a in args):
+            return True, self.py_pow(*args)
+        if f is math.trunc and is_sym(args[0]):
+            return True, self.py_int(args[0])
+        if f is math.fabs and is_sym(args[0]):
+            return True, self.py_abs(self.to_float(args[0]))
+        if f is math.gcd and any(is_sym(a) for a in args):
+            raise HarnessError('pyk: math.gcd on symbolic integers is not modelled')
         if f is min or f is max:
             return True, self.minmax('min' if f is min else 'max', list(args))
         if f is abs:
@@ -1258,8 +1321,27 @@ class Interp:
             return f(*args, **kwargs)
         except HarnessError:
             raise
+        except PyRaise:
+            raise
         except Exception as e:
+            if isinstance(e, (TypeError, AttributeError)) and not getattr(f, '_pyk_native', False) \
+                    and (self._deep_sym(args) or self._deep_sym(list(kwargs.values()))):
+                # a C / library function was handed a symbolic value it does not understand: this is a gap of the
+                # translator, never a behaviour of the program
+                nm = getattr(f, '__qualname__', None) or getattr(f, '__name__', repr(f))
+                mod = getattr(f, '__module__', None) or getattr(getattr(f, '__self__', None), '__name__', '')
+                raise HarnessError(f'pyk: call {mod}.{nm}(...) with symbolic arguments is not modelled')
             raise PyRaise(type(e).__name__, str(e))
+
+    @staticmethod
+    def _deep_sym(x, depth=0):
+        if is_sym(x):
+            return True
+        if depth < 4 and isinstance(x, (list, tuple, set, frozenset)):
+            return any(Interp._deep_sym(y, depth + 1) for y in x)
+        if depth < 4 and isinstance(x, dict):
+            return any(Interp._deep_sym(y, depth + 1) for y in x.values())
+        return False
 
     def call_node(self, node, args, kwargs, globs, closure_env=None):
         env = Env(closure_env)
@@ -1456,6 +1538,14 @@ class Interp:
             if not hasattr(str, attr):
                 raise PyRaise('AttributeError', f"'str' object has no attribute '{attr}'")
             return StrMethod(obj, attr)
+        if isinstance(obj, (SInt, SBool)) and attr in ('bit_length', 'conjugate', '__index__', '__int__', 'numerator', 'real'):
+            if attr == 'bit_length':
+                return native(lambda: self.py_bit_length(obj))
+            if attr in ('numerator', 'real'):
+                return SInt(self.it(obj))
+            return native(lambda: SInt(self.it(obj)))
+        if isinstance(obj, SFloat) and attr == 'is_integer':
+            return native(lambda: SBool(z3.fpEQ(z3.fpRoundToIntegral(z3.RTZ(), obj.t), obj.t)))
         if is_sym(obj):
             raise HarnessError(f'pyk: attribute .{attr} of a symbolic {type(obj).__name__}')
         if isinstance(obj, Opaque):
@@ -1688,7 +1778,7 @@ class Interp:
 
     @staticmethod
     def _pure_callee(f):
-        return f in (int, float, bool, min, max, abs, math.ceil, math.floor, len, isinstance)
+        return f in (int, float, bool, min, max, abs, math.ceil, math.floor, len, isinstance, divmod, math.trunc)
 
 
 def _load(t):
